@@ -309,6 +309,10 @@ SPECS = [
          subst=[(r"yr_le32toh\(directory->VirtualAddress\)", "sec_va"), (r"yr_le32toh\(directory->Size\)", "sec_size")],
          rx=r"if \((sec_va == 0 \|\|\s*sec_va > pe->data_size \|\|.*?pe->data_size)\)\s*\{\s*return;", args=["data_size", "sec_va", "sec_size"],
          atoms={"sec_va": ("sec_va", "u32"), "sec_size": ("sec_size", "u32"), "pe->data_size": ("data_size", "int")}),
+    # pe.c pe_get_section_full_name: `for (len = 0; fits_in_pe(pe, string, <size>); len++) { ... string[len] ... }` — the guarded size as a function of the index read
+    dict(name="pe_fullname_guard_size", value=True, file="libyara/modules/pe/pe.c",
+         rx=r"for \(uint64_t len = 0; fits_in_pe\(pe, string, ([^;]*?)\); len\+\+\)\s*\{[^{}]*?string\[len\]", args=["len"],
+         atoms={"len": ("len", "int")}),
     # ---- dotnet.c inline tests
     dict(name="dotnet_blob4_ok", file="libyara/modules/dotnet/dotnet.c",
          rx=r"else if \((offset \+ 4 < pe->data \+ pe->data_size) && \(\*offset & 0xE0\) == 0xC0\)", args=["data", "data_size", "offset"],
